@@ -42,6 +42,15 @@ type memTracker struct {
 	memIdx   map[famKey]map[int]bool
 	// series written per metric and shard since the engine was opened (the shard level memory series index)
 	memSeries map[string]map[string]bool
+	// genFields: per family and generation, the fields each metric's flushed block will list (every field of the
+	// metric whose index owns a write buffer in that memory database, whoever created the buffer)
+	genFields map[famKey]map[int]map[string]map[string]bool
+	// placeFields: the same per table file place
+	placeFields map[string]map[string]map[string]bool
+	// genSeries / placeSeries: a flushed block lists every series of the metric the shard's memory index knew at
+	// flush time (whether or not it has data in that memory database)
+	genSeries   map[famKey]map[int]map[string]map[string]bool
+	placeSeries map[string]map[string]map[string]bool
 	seq      int
 	events   int // writes that shrank an end offset
 }
@@ -70,7 +79,9 @@ func newMemTracker(shards int) *memTracker {
 	return &memTracker{shards: shards, wins: map[string]*fieldWin{}, shardOf: map[string]int{}, dropped: map[string]bool{},
 		place: map[string]string{}, fam: map[string]famKey{}, gen: map[famKey]int{}, meta: map[string]contribMeta{},
 		sinceOpen: map[string]map[string]bool{}, fieldIdx: map[string]map[string]int{}, memIdx: map[famKey]map[int]bool{},
-		memSeries: map[string]map[string]bool{}}
+		memSeries: map[string]map[string]bool{}, genFields: map[famKey]map[int]map[string]map[string]bool{},
+		placeFields: map[string]map[string]map[string]bool{}, genSeries: map[famKey]map[int]map[string]map[string]bool{},
+		placeSeries: map[string]map[string]map[string]bool{}}
 }
 
 func contribID(batch, point int, field string) string {
@@ -215,6 +226,41 @@ func (t *memTracker) switchGen(family int64, shard int) {
 		}
 	}
 	for fk := range touched {
+		// what the blocks of this generation will list
+		fields := map[string]map[string]bool{}
+		for metric, idx := range t.fieldIdx {
+			for f, i := range idx {
+				if t.memIdx[fk][i] {
+					if fields[metric] == nil {
+						fields[metric] = map[string]bool{}
+					}
+					name := f
+					if strings.HasPrefix(f, "__bucket_") {
+						name = "__bucket"
+					}
+					fields[metric][name] = true
+				}
+			}
+		}
+		if t.genFields[fk] == nil {
+			t.genFields[fk] = map[int]map[string]map[string]bool{}
+		}
+		t.genFields[fk][t.gen[fk]] = fields
+		series := map[string]map[string]bool{}
+		for key, set := range t.memSeries {
+			i := strings.LastIndexByte(key, '|')
+			if key[i+1:] != fmt.Sprint(fk.shard) {
+				continue
+			}
+			series[key[:i]] = map[string]bool{}
+			for sk := range set {
+				series[key[:i]][sk] = true
+			}
+		}
+		if t.genSeries[fk] == nil {
+			t.genSeries[fk] = map[int]map[string]map[string]bool{}
+		}
+		t.genSeries[fk][t.gen[fk]] = series
 		t.gen[fk]++
 	}
 	for fk := range t.memIdx {
@@ -242,6 +288,36 @@ func (t *memTracker) flushEnd(family int64, shard int) {
 			files[fk] = fmt.Sprintf("f%d", t.seq)
 		}
 		t.place[id] = files[fk]
+		t.mergePlaceFields(files[fk], t.genFields[fk][g])
+		t.mergeInto(t.placeSeries, files[fk], t.genSeries[fk][g])
+	}
+}
+
+func (t *memTracker) mergeInto(dst map[string]map[string]map[string]bool, place string, src map[string]map[string]bool) {
+	if dst[place] == nil {
+		dst[place] = map[string]map[string]bool{}
+	}
+	for metric, set := range src {
+		if dst[place][metric] == nil {
+			dst[place][metric] = map[string]bool{}
+		}
+		for k := range set {
+			dst[place][metric][k] = true
+		}
+	}
+}
+
+func (t *memTracker) mergePlaceFields(place string, fields map[string]map[string]bool) {
+	if t.placeFields[place] == nil {
+		t.placeFields[place] = map[string]map[string]bool{}
+	}
+	for metric, fs := range fields {
+		if t.placeFields[place][metric] == nil {
+			t.placeFields[place][metric] = map[string]bool{}
+		}
+		for f := range fs {
+			t.placeFields[place][metric][f] = true
+		}
 	}
 }
 
@@ -251,10 +327,33 @@ func (t *memTracker) flush(family int64, shard int) {
 	t.flushEnd(family, shard)
 }
 
-// compacted: the table files of a data family were merged into one.
+// compacted: the table files of a data family were merged into one. The merged block of a metric lists the fields of
+// the blocks the metric had (a file without a block of the metric contributes nothing).
 func (t *memTracker) compacted(family int64, shard int) {
 	t.seq++
 	to := fmt.Sprintf("f%d", t.seq)
+	has := map[string]map[string]bool{} // old place -> metrics with data there
+	for id, pl := range t.place {
+		fk := t.fam[id]
+		if fk.family == family && fk.shard == shard && strings.HasPrefix(pl, "f") && !t.dropped[id] {
+			if has[pl] == nil {
+				has[pl] = map[string]bool{}
+			}
+			has[pl][t.meta[id].metric] = true
+		}
+	}
+	for pl, metrics := range has {
+		fields := map[string]map[string]bool{}
+		for metric := range metrics {
+			fields[metric] = t.placeFields[pl][metric]
+		}
+		t.mergePlaceFields(to, fields)
+		series := map[string]map[string]bool{}
+		for metric := range metrics {
+			series[metric] = t.placeSeries[pl][metric]
+		}
+		t.mergeInto(t.placeSeries, to, series)
+	}
 	for id, pl := range t.place {
 		fk := t.fam[id]
 		if fk.family == family && fk.shard == shard && strings.HasPrefix(pl, "f") {
@@ -316,6 +415,12 @@ func (t *memTracker) fileBlocks(metric string) map[famKey]map[string]*block {
 			b.hi = mt.slot
 		}
 		b.series[mt.series] = true
+		for sk := range t.placeSeries[pl][metric] {
+			b.series[sk] = true
+		}
+		for f := range t.placeFields[pl][metric] {
+			b.fields[f] = true
+		}
 		if mt.field == "__hist" {
 			for _, hf := range []string{"HistogramSum", "HistogramCount", "HistogramMin", "HistogramMax", "__bucket"} {
 				b.fields[hf] = true
@@ -460,5 +565,10 @@ func (t *memTracker) altModelHidden(extra map[string]bool, places bool, dropMem 
 		}
 		m.Add(out) // keeps the batch numbering of the original
 	}
+	full := node.NewModel(slotMs)
+	for _, points := range t.batches {
+		full.Add(points)
+	}
+	m.InheritSchema(full)
 	return m
 }
